@@ -5,25 +5,25 @@ the mode handed down along its path. -/
 namespace BreezyVerif.C11
 open BreezyVerif.C46 Forest
 
-theorem pass_clearV (c : Cfg) (here : Path) (m : Mode) (f : Forest) :
-    clearV (pass c here m f) = clearV f := by
+theorem pass_clearV (c : Cfg) (pre : Pre) (here : Path) (m : Mode) (f : Forest) :
+    clearV (pass c pre here m f) = clearV f := by
   induction f generalizing here m with
   | nil => rfl
   | cons i kids rest ih1 ih2 => simp [pass, clearV, ih1, ih2]
 
-theorem pass_get_cons_ne {c : Cfg} {here : Path} {m : Mode} {i : Info} {kids rest : Forest}
+theorem pass_get_cons_ne {c : Cfg} {pre : Pre} {here : Path} {m : Mode} {i : Info} {kids rest : Forest}
     {n : String} {t : Path} (h : i.name ≠ n) :
-    (pass c here m (cons i kids rest)).get (n :: t) = (pass c here m rest).get (n :: t) := by
+    (pass c pre here m (cons i kids rest)).get (n :: t) = (pass c pre here m rest).get (n :: t) := by
   simp [pass, Forest.get, h]
 
 /-- the entry found at `q` after the pass: same entry, flag = `step` at the
 mode of its listing; its content is the pass continued in the mode `step` hands down -/
-theorem pass_get {c : Cfg} {here : Path} {m : Mode} {f : Forest} {q : Path} {i : Info} {k : Forest}
+theorem pass_get {c : Cfg} {pre : Pre} {here : Path} {m : Mode} {f : Forest} {q : Path} {i : Info} {k : Forest}
     (hg : f.get q = some (i, k)) :
-    ∃ m', modeOf c here m f q = some m' ∧
-      (pass c here m f).get q =
-        some ({ i with versioned := (step c (here ++ q) m' i k).1 },
-              pass c (here ++ q) (step c (here ++ q) m' i k).2 k) := by
+    ∃ m', modeOf c pre here m f q = some m' ∧
+      (pass c pre here m f).get q =
+        some ({ i with versioned := (step c pre (here ++ q) m' i k).1 },
+              pass c pre (here ++ q) (step c pre (here ++ q) m' i k).2 k) := by
   induction f generalizing q here m with
   | nil => simp [Forest.get] at hg
   | cons j kids rest ih1 ih2 =>
@@ -40,10 +40,10 @@ theorem pass_get {c : Cfg} {here : Path} {m : Mode} {f : Forest} {q : Path} {i :
           exact ⟨m, by simp [modeOf], by simp [pass, Forest.get]⟩
         | cons a b =>
           rw [get_cons_down] at hg
-          obtain ⟨m', h1, h2⟩ := ih1 (here := here ++ [j.name]) (m := (step c (here ++ [j.name]) m j kids).2) hg
+          obtain ⟨m', h1, h2⟩ := ih1 (here := here ++ [j.name]) (m := (step c pre (here ++ [j.name]) m j kids).2) hg
           refine ⟨m', by simpa [modeOf] using h1, ?_⟩
-          have : (pass c here m (cons j kids rest)).get (j.name :: a :: b)
-              = (pass c (here ++ [j.name]) (step c (here ++ [j.name]) m j kids).2 kids).get (a :: b) := by
+          have : (pass c pre here m (cons j kids rest)).get (j.name :: a :: b)
+              = (pass c pre (here ++ [j.name]) (step c pre (here ++ [j.name]) m j kids).2 kids).get (a :: b) := by
             simp [pass, Forest.get]
           rw [this, h2]
           simp [List.append_assoc]
@@ -53,8 +53,8 @@ theorem pass_get {c : Cfg} {here : Path} {m : Mode} {f : Forest} {q : Path} {i :
         rw [pass_get_cons_ne e]; exact h2
 
 /-- nothing appears: a lookup that fails before fails afterwards -/
-theorem pass_get_none {c : Cfg} {here : Path} {m : Mode} {f : Forest} {q : Path}
-    (hg : f.get q = none) : (pass c here m f).get q = none := by
+theorem pass_get_none {c : Cfg} {pre : Pre} {here : Path} {m : Mode} {f : Forest} {q : Path}
+    (hg : f.get q = none) : (pass c pre here m f).get q = none := by
   induction f generalizing q here m with
   | nil => simp [pass, Forest.get]
   | cons j kids rest ih1 ih2 =>
@@ -67,18 +67,71 @@ theorem pass_get_none {c : Cfg} {here : Path} {m : Mode} {f : Forest} {q : Path}
         | nil => rw [get_cons_self] at hg; simp at hg
         | cons a b =>
           rw [get_cons_down] at hg
-          have : (pass c here m (cons j kids rest)).get (j.name :: a :: b)
-              = (pass c (here ++ [j.name]) (step c (here ++ [j.name]) m j kids).2 kids).get (a :: b) := by
+          have : (pass c pre here m (cons j kids rest)).get (j.name :: a :: b)
+              = (pass c pre (here ++ [j.name]) (step c pre (here ++ [j.name]) m j kids).2 kids).get (a :: b) := by
             simp [pass, Forest.get]
           rw [this]; exact ih1 hg
       · rw [get_cons_ne e] at hg
         rw [pass_get_cons_ne e]; exact ih2 hg
 
 /-- whatever the mode: an entry that is versioned or on a named path stays / becomes versioned -/
-theorem step_of_v1 (c : Cfg) (p : Path) (m : Mode) (i : Info) (k : Forest)
-    (h : (i.versioned || onPath c p i) = true) : (step c p m i k).1 = true := by
+theorem step_of_v1 (c : Cfg) (pre : Pre) (p : Path) (m : Mode) (i : Info) (k : Forest)
+    (h : (i.versioned || onPath c p i) = true) : (step c pre p m i k).1 = true := by
   unfold step visitFlag
   simp only [h]
-  cases c.fmt <;> cases m <;> simp <;> (repeat' split) <;> simp_all
+  cases c.fmt <;> simp <;> (repeat' split) <;> simp_all
+
+/-! ### what the pass does not change: kinds, names, control-directory tests -/
+
+theorem pass_hasCtl (c : Cfg) (pre : Pre) (here : Path) (m : Mode) (f : Forest) :
+    hasCtl (pass c pre here m f) = hasCtl f := by
+  induction f generalizing here m with
+  | nil => rfl
+  | cons i kids rest _ ih2 => simp [pass, hasCtl, ih2]
+
+theorem pass_hasDir (c : Cfg) (pre : Pre) (here : Path) (m : Mode) (n : String) (f : Forest) :
+    (pass c pre here m f).hasDir n = f.hasDir n := by
+  induction f generalizing here m with
+  | nil => rfl
+  | cons i kids rest _ ih2 => simp [pass, Forest.hasDir, ih2]
+
+/-- look-ups after the pass find an entry iff they did before, of the same kind -/
+theorem pass_get_kind {c : Cfg} {pre : Pre} {here : Path} {m : Mode} {f : Forest} (q : Path) :
+    ((pass c pre here m f).get q).map (fun x => x.1.kind) = (f.get q).map (fun x => x.1.kind) := by
+  cases hg : f.get q with
+  | none => rw [pass_get_none hg]
+  | some x =>
+    obtain ⟨i, k⟩ := x
+    obtain ⟨m', _, h2⟩ := pass_get (c := c) (pre := pre) (here := here) (m := m) hg
+    rw [h2]; rfl
+
+theorem pass_get_isNone {c : Cfg} {pre : Pre} {here : Path} {m : Mode} {f : Forest} (q : Path) :
+    ((pass c pre here m f).get q).isNone = (f.get q).isNone := by
+  have := pass_get_kind (c := c) (pre := pre) (here := here) (m := m) (f := f) q
+  cases h1 : (pass c pre here m f).get q <;> cases h2 : f.get q <;> simp_all
+
+theorem userDirs_pass (c : Cfg) (pre : Pre) (here : Path) (m : Mode) (f : Forest) :
+    userDirs c (pass c pre here m f) = userDirs c f := by
+  unfold userDirs
+  apply List.filter_congr
+  intro n _
+  have := pass_get_kind (c := c) (pre := pre) (here := here) (m := m) (f := f) n
+  cases h1 : (pass c pre here m f).get n <;> cases h2 : f.get n <;> simp_all
+
+theorem checkNames_pass (fmt : Fmt) (r : Bool) (c : Cfg) (pre : Pre) (here : Path) (m : Mode) (f : Forest)
+    (ns : List Path) : checkNames fmt r (pass c pre here m f) ns = checkNames fmt r f ns := by
+  induction ns with
+  | nil => rfl
+  | cons p ps ih => simp only [checkNames, pass_get_isNone, ih]
+
+theorem userDirs_sub (c : Cfg) (f : Forest) {p : Path} (h : (userDirs c f).contains p = true) :
+    c.names.contains p = true := by
+  simp only [userDirs, List.contains_eq_mem, List.mem_filter, decide_eq_true_eq] at *
+  exact h.1
+
+theorem gathered_sub (c : Cfg) (f : Forest) {p : Path} (h : gathered (preOf c f).ud p = true) :
+    c.names.contains p = true := by
+  simp only [gathered, preOf, Bool.and_eq_true] at h
+  exact userDirs_sub c f h.1
 
 end BreezyVerif.C11
